@@ -20,6 +20,51 @@ OWNED_BY_CALLER = {"m_size": "written only by the constructor and resize(), both
                              "thread after the workers were joined"}
 
 
+def _norm_type(t):
+    t = (t or "").replace("const ", "").replace("volatile ", "").replace("&", "").replace("*", "")
+    return t.replace("std::__atomic_base", "std::atomic").replace(" ", "")
+
+
+def flag_by_type(fn, objnode):
+    """a hand-off flag reached through a reference, pointer or iterator instead of `m_has_job[i]`
+    (e.g. the element parameter of a lambda given to a std algorithm over the flag vector): the
+    accessed object is a parameter / local whose type is the element type of a flag container, a
+    type no other atomic member of the pool has"""
+    o = strip(objnode)
+    while isinstance(o, dict) and o.get("k") == "unop" and o.get("op") == "*":
+        o = strip(o["e"])
+    if not (isinstance(o, dict) and o.get("k") == "ref" and o.get("rk") in ("param", "local")):
+        return None
+    t = _norm_type(fn.type(o.get("vt", o.get("t"))))
+    if not t:
+        return None
+    others = set()
+    elems = {}
+    for rec in fn.unit.records:
+        if not (rec.get("bn") or "").startswith(POOL):
+            continue
+        for fld in rec["fields"]:
+            ft = _norm_type(fn.unit.type(fld["t"]))
+            if fld["n"] in HANDOFF_FLAGS:
+                i = ft.find("std::atomic<")
+                if i >= 0:
+                    depth, j = 0, i
+                    while j < len(ft):
+                        if ft[j] == "<":
+                            depth += 1
+                        elif ft[j] == ">":
+                            depth -= 1
+                            if depth == 0:
+                                break
+                        j += 1
+                    elems[ft[i:j + 1]] = fld["n"]
+            elif "std::atomic" in ft:
+                others.add(ft)
+    if t in elems and t not in others:
+        return elems[t]
+    return None
+
+
 def atomic_access(call):
     """(kind, order) for an atomic member call, else None.  kind in load|store|rmw"""
     bn = call.get("bn", "")
@@ -245,6 +290,8 @@ def run(db, chk):
                 continue
             obj = pp(strip(c["obj"]))
             flag = next((f for f in HANDOFF_FLAGS if ("this->" + f + "[") in obj), None)
+            if flag is None:
+                flag = flag_by_type(fn, c["obj"])
             if flag is None:
                 continue
             kind, order = acc
